@@ -12,6 +12,10 @@ Init == /\ \E c \in Configs : InitWith(c)
         /\ lastCall = "init" /\ labelsGiven = 0
 Ref == /\ lastCall = "init" /\ \E r \in Refs : SetReference(r)
        /\ lastCall' = "set_reference" /\ UNCHANGED labelsGiven
+(* the user hands over a new reference later on - also in the middle of an oracle round: the statistics and the tracked density are re-based,
+   the protocol state (waiting or not, the labelled samples accepted so far, the reported state, the counters) is what it was *)
+ReRef == /\ lastCall # "init" /\ \E r \in Refs : SetReference(r)
+         /\ lastCall' = "set_reference" /\ UNCHANGED labelsGiven
 Upd == /\ lastCall # "init" /\ \E m \in {0, 1} : Update(m)
        /\ lastCall' = "update" /\ labelsGiven' = 0
 UpdRefused == /\ lastCall # "init" /\ \E rows \in {1, 2} : UpdateRefused(rows)
@@ -20,7 +24,7 @@ Lab == /\ lastCall # "init" /\ \E m \in {0, 1}, c \in {0, 1} : GiveLabel(m, c, A
        /\ lastCall' = "label" /\ labelsGiven' = (IF mode' = "Idle" THEN 0 ELSE labelsGiven + 1)
 LabRefused == /\ lastCall # "init" /\ \E rows \in {1, 2}, ok \in BOOLEAN : LabelRefused(rows, ok)
               /\ lastCall' = "label refused" /\ UNCHANGED labelsGiven
-Next == Ref \/ Upd \/ UpdRefused \/ Lab \/ LabRefused
+Next == Ref \/ ReRef \/ Upd \/ UpdRefused \/ Lab \/ LabRefused
 Spec == Init /\ [][Next]_vars
 FairSpec == Spec /\ WF_vars(Lab)
 Bound == TLCGet("level") <= Depth
@@ -41,6 +45,8 @@ RefusalRules == [][ /\ (lastCall' = "update refused" \/ lastCall' = "label refus
 (* after the confirming label the detector tracks from the new reference density *)
 NewReference == [][ lastCall' = "label" /\ mode' = "Idle" => cur' = md' /\ refn' = mcfg.L ]_vars
 CountsUpdatesOnly == [][ lastCall' # "update" => total' = total /\ since' = since ]_vars
+(* a new reference touches nothing but the reference statistics and the tracked density *)
+ReRefKeepsProtocol == [][ lastCall' = "set_reference" => UNCHANGED <<mode, oracle, st, total, since>> /\ cur' = md' ]_vars
 (* every wait ends if labels keep coming *)
 Progress == (mode = "Waiting") ~> (mode = "Idle")
 (* liveness run: updates are cut off after three (labels never change the counters, so no waiting state is hidden) *)
